@@ -83,6 +83,26 @@ FIRST_RUN_MISSED = {  # seeded changes the checks did NOT catch when first confr
     "C16-12": "ids were only placed on parties and their descendants; whole documents with ids on the root, the dataset and inside additionalMetadata/metadata were added",
     "C17-12": "rules that declare no children were skipped, and only one foreign name was offered; every rule now refuses every known name it does not list",
     "C20-11": "document text never contained escaped markup characters (&lt; &amp; ...)",
+    "C01-13": "the parent always carried valid text and attributes; the child verdict is now re-taken with the parent's content in {None, '', blank, NBSP, text, '0'} x attributes {valid, none, +foreign} (frame condition)",
+    "C03-13": "'fail-fast raises for the first' was only checked as 'raises'; the message raised must now be that of the first collected entry",
+    "C03-14": "values padded with white space were only in the thorough tier's near-miss list",
+    "C06-13": "no falsy id ('' / '0'), and the original tree came from the same constructor the loader uses; a hand-written JSON document (own writer, values from the spec) is now loaded and re-saved",
+    "C07-13": "only whole trees were exported; an inner node and the copy of an inner node (both still carry a parent link) are now exported as documents too",
+    "C08-14": "no non-ASCII character inside a CDATA section",
+    "C09-13": "no name in the universes was a substring of another ('c' is now 'ab' next to 'a' and 'b')",
+    "C10-13": "look-up functions were never called with unknown / prefixed names before the tables were compared",
+    "C10-14": "the integrity phase used validate.node only; it now also makes some hundred refused fail-fast validate.tree calls at every depth before every witness is validated again",
+    "C11-14": "candidates handed to child_insert_index were detached probes; candidates created with Node(name, parent=P) (a back link only) with a child of their own were added",
+    "C14-13": "exit 2: a defect keyed on object addresses (ids of dead nodes remembered in a default-argument set) showed up in the exploration but not in the re-run; workers now come from a fork server (constant process image), a re-run executes the identical task, and up to three recorded instances per signature are tried",
+    "C16-14": "copies were compared by name/content/attributes only and trees carried no tails or extras; the copied children are now compared with their sources on every field",
+    "C17-13": "the Rule object asked for indices had never validated anything; a second Rule object that validates the parent before every question must give the same answers",
+    "C17-14": "never asked about a parent that already holds undeclared children before the refusal questions",
+    "C18-13": "single-field differences only; compound differences that a folded comparison cannot see (prefix:name in the name, ...) were added",
+    "C18-14": "no None-valued attribute opposite a differently named one",
+    "C19-13": "never more than one givenName",
+    "C19-14": "a tree was never edited in place between two evaluations",
+    "C20-13": "white-space-only text inside protected elements was accepted in any form; it must now be preserved exactly",
+    "C20-14": "no characters with a compatibility decomposition (superscript two, fi ligature, acute accent, fullwidth less-than)",
 }
 NOT_DETECTED_BY_DESIGN = {"C19-5", "C09-8"}
 ids = sys.argv[1:] or sorted(os.listdir(os.path.join(HERE, "seeded")))
